@@ -12,16 +12,17 @@ PROPERTY = "C06"
 CONTRACTS = ["contracts.c06"]
 LEVEL = "other"
 EXPLANATION = (
-    "Contract-based (bounded-symbolic): reindex_database (plain reindex) is verified against an ABSTRACT index - a map from page "
+    "Contract-based (bounded-symbolic): reindex_database (plain reindex, or `db reindex PAGE` for one page on disk) is verified against an ABSTRACT index - a map from page "
     "name to the content the page was compiled from, maintained by stubs of SQLRepo.remove_file_by_name / add_file and "
     "walk_zorg_page: from every state in which the stored hash map describes the index (the invariant each create / reindex "
     "establishes), the index afterwards holds exactly the pages on disk, each with its current content - which is what a fresh "
     "`db create` yields in this view - the stored hash map describes the new index again (the invariant is re-established), no "
     "page is written, and the command refuses (RuntimeError) exactly when a new or changed page has syntax errors "
+    "with an explicit page only that page's index entry and stored digest change "
     "(<= 2 pages on disk, <= 2 stored entries, names / contents / digests fully symbolic, empty error whitelist; A-SHA as an "
     "explicit precondition). _get_file_hash_map lists exactly the paths considered with the digests of their current contents. "
-    "Not decided deductively: the closure of the invariant under the write-back of ZIDs / stamps and under reindex runs with "
-    "explicit paths, and that the real ORM implements the abstract index: generated histories (edit / add / delete / move notes, "
+    "Not decided deductively: the closure of the invariant under the write-back of ZIDs / stamps, explicit paths that are not on "
+    "disk, non-empty error whitelists, and that the real ORM implements the abstract index: generated histories (edit / add / delete / move notes, "
     "continuation-line edits, restoring earlier contents, add / delete / rename pages, header edits, old-mtime edits, reindex with "
     "and without explicit paths, days advancing), scripted histories and wildcard / case page-name pairs are run through the real "
     "handlers and SQLite and compared with a fresh `db create` of the final files (bounded)."
